@@ -154,6 +154,47 @@ def cases(ctx, budget):
                 return None
             yield Case({"value": v, "query": qt, "results": len(results), "scripts": cnt, "enumeration_complete": full}, None, [len(results)], [117] + wire.enc_json(v), None,
                        len(results) > 1, "query-outcome-set", True, chkq)
+    # (d) whole queries whose selectors make random choices of their own (wildcard / filter on objects), child and descendant segments, several
+    #     segments: every outcome of env.find is enumerated; its complete set must equal the Coq enumeration nd_results of what RFC 9535 permits
+    #     (Spec/NondetQ.v), and, outcome by outcome, the model m_find_nd (Model/NdEval.v) run on the scripts of that outcome - regrouped per random
+    #     episode and per segment - must return the same nodelist
+    qtexts_d = ["$.*", "$[*]", "$.*.*", "$[*, *]", "$['a', *]", "$[?@]", "$[?@ != 1]", "$[?@.a]", "$.*[?@ != 1]", "$..*", "$..[?@ != 1]", "$..[*, 0]", "$..*.*",
+                "$.a.*", "$.*.a", "$[?count(@.*) > 0]", "$[?@.*]", "$[?@..a].*", "$..a.*", "$.*..*", "$[*][?@ != 2]", "$..[?@.a]", "$[?length(@) > 0].*"]
+    dvals = [{"a": 1, "b": 2, "c": 3}, {"a": {"x": 1, "y": 2}, "b": {"z": 3}}, {"a": [1, 2], "b": {"a": 1}}, [{"a": 1, "b": 2}, {"a": 3}], [3, 1, 2], {"a": {"a": 1, "b": 2}},
+             {"a": {}, "b": [], "c": 1}, [[1, 2], {"a": 1, "b": 2}], {"a": {"a": {"a": 1, "b": 2}}, "b": 1}, {"a": 1}, [], {}, 7]
+    regd = gen.enc_registry(gen.BUILTINS)
+    nq = 0
+    for v in dvals + [x for x in small_values(rng, (6 if ctx.quick else 150) * budget) if count_nodes(x) <= 6]:
+        for qt in (qtexts_d if nq < 400 or not ctx.quick else rng.sample(qtexts_d, 6)):
+            nq += 1
+            cq = denv0.compile(qt); ast = gen.ast_of_query(cq)
+            qnd = env.compile(qt)
+            results = set(); cnt = 0; full = True
+
+            def rund(s, v=v, qnd=qnd):
+                with Episodes(s, qnd) as ep:
+                    try: out = [0, tuple(nd.location for nd in qnd.find(v))]
+                    except jp.JSONPathRecursionError: out = [1, 6]
+                return out + [ep.supply()]
+            for script, out in chooser.enumerate_outcomes(rund, cap):
+                cnt += 1
+                if out[0] == 0:
+                    results.add(out[1])
+                    if out[2] is not None and (cnt <= 60 or rng.random() < 0.02):
+                        sup = out[2]
+                        enc = [0] + wire.enc_list(lambda l: wire.enc_list(wire.enc_key, list(l)), list(out[1]))
+                        yield Case({"value": v, "query": qt, "script": script, "supply": sup},
+                                   [23, 100] + regd + gen.enc_rxtable([]) + wire.enc_list(lambda x: [len(x)] + list(x), sup) + gen.enc_segs(ast) + wire.enc_json(v), enc, None, None,
+                                   len(script) > 0, "query-script")
+            if cnt >= cap: full = False
+
+            def chkd(impl_out, spec, results=results, full=full):
+                expected = dec_loclists(spec)
+                if not results <= expected: return "a result of the nondeterministic query is not one RFC 9535 allows: %r" % (sorted(results - expected, key=repr)[:1],)
+                if full and results != expected: return "a result RFC 9535 allows is never produced (%d of %d): e.g. %r" % (len(results), len(expected), sorted(expected - results, key=repr)[:1])
+                return None
+            yield Case({"value": v, "query": qt, "results": len(results), "scripts": cnt, "enumeration_complete": full}, None, [len(results)],
+                       [120] + regd + gen.enc_rxtable([]) + gen.enc_segs(ast) + wire.enc_json(v), None, len(results) > 1, "query-outcome-set-full", True, chkd)
     # (b) whole queries: nondeterministic result is a permutation of the deterministic one
     import random
     n = (1500 if ctx.quick else 60000) * budget
@@ -195,6 +236,101 @@ def cases(ctx, budget):
             for g in sorted(nodes): res += g
             return res
         yield Case({"text": text, "value": v}, None, out, [103] + reg + gen.enc_rxtable(rows) + gen.enc_segs(q) + wire.enc_json(v), expect, len(out) > 2, "query-multiset")
+
+
+def dec_loclists(spec):
+    """wire list of lists of locations -> set of tuples of location tuples"""
+    pos = 1; out = set()
+    for _ in range(spec[0]):
+        m = spec[pos]; pos += 1
+        res = []
+        for _ in range(m):
+            k = spec[pos]; pos += 1
+            loc = []
+            for _ in range(k):
+                if spec[pos] == 0:
+                    nn = spec[pos + 1]; loc.append("".join(chr(c) for c in spec[pos + 2:pos + 2 + nn])); pos += 2 + nn
+                else:
+                    loc.append(spec[pos + 1]); pos += 2
+            res.append(tuple(loc))
+        out.add(tuple(res))
+    return out
+
+
+class Episodes:
+    """random.randrange / random.shuffle driven by a chooser.Script, recording which random EPISODE every choice belongs to: one episode per
+    random.shuffle of a selector (WildcardSelector / FilterSelector.resolve on an object), one per _nondeterministic_visit generator (its
+    randrange calls and the shuffles of its _nondeterministic_children).  Episodes are attributed, through the callers' frames, to the segment of
+    the top-level query they serve and to the input node of that segment being processed; those of queries nested in filters are dropped.
+    The generator pipeline runs segment after segment for each node, the model segment by segment: per segment both process the input nodes in
+    the same order, and for one input node of a descendant segment the model runs the traversal first.  supply() reorders accordingly; it is
+    None when the frames do not have the expected shape (then only the outcome sets are compared)."""
+    def __init__(self, script, query):
+        self.s, self.q = script, query
+        self.eps = []; self.bykey = {}; self.keep = []; self.groups = {}; self.ok = True
+
+    def seg_of_segment(self, seg):
+        for i, x in enumerate(self.q.segments):
+            if x is seg: return i
+        return None
+
+    def seg_of_selector(self, sel):
+        for i, x in enumerate(self.q.segments):
+            if any(y is sel for y in x.selectors): return i
+        return None
+
+    def group(self, segidx, obj):
+        if obj is None: self.ok = False
+        self.keep.append(obj)
+        g = self.groups.setdefault(segidx, {})
+        return g.setdefault(id(obj), len(g))
+
+    def visit_episode(self, f):
+        if f is None or f.f_code.co_name != "_nondeterministic_visit":
+            self.ok = False; return [None, 0, 0, []]
+        k = id(f)
+        if k not in self.bykey:
+            self.keep.append(f)                                     # keeps the frame alive: its id is never reused
+            si = self.seg_of_segment(f.f_locals.get("self"))
+            e = [si, self.group(si, f.f_locals.get("root")) if si is not None else 0, 0, []]
+            self.bykey[k] = e; self.eps.append(e)
+        return self.bykey[k]
+
+    def __enter__(self):
+        import sys, math, random
+        self.saved = (random.randrange, random.shuffle)
+        s = self.s
+
+        def randrange(n):
+            e = self.visit_episode(sys._getframe(1))
+            v = s.take(n); e[3].append(s.trace[-1][0])
+            return v
+
+        def shuffle(x):
+            f = sys._getframe(1)
+            if f.f_code.co_name == "_nondeterministic_children": e = self.visit_episode(f.f_back)
+            else:
+                si = self.seg_of_selector(f.f_locals.get("self"))
+                fb = f.f_back
+                e = [si, self.group(si, fb.f_locals.get("node") if fb is not None else None) if si is not None else 0, 1, []]; self.eps.append(e)
+            n = len(x)
+            if n < 2: return
+            idx = s.take(math.factorial(n)); e[3].append(s.trace[-1][0])
+            pool = list(x); out = []
+            for k in range(n, 0, -1):
+                j = idx % k; idx //= k
+                out.append(pool.pop(j))
+            x[:] = out
+        random.randrange, random.shuffle = randrange, shuffle
+        return self
+
+    def __exit__(self, *a):
+        import random
+        random.randrange, random.shuffle = self.saved
+
+    def supply(self):
+        if not self.ok: return None
+        return [e[3] for e in sorted([e for e in self.eps if e[0] is not None], key=lambda e: (e[0], e[1], e[2]))]
 
 
 def skip_json(a, pos):
